@@ -3,6 +3,7 @@
 From Coq Require Import List ZArith Bool Lia.
 Import ListNotations.
 Require Import Pyrefact.Ops PyrefactGen.Tables Pyrefact.BoundModel Pyrefact.BoolRwModel Pyrefact.BoundProofs.
+Require Import Pyrefact.RangeModel Pyrefact.RangeProofs.
 Open Scope Z_scope.
 
 (* T17.1 the regenerated REVERSE_OPERATOR_MAPPING is total and maps every operator to its negation
@@ -92,4 +93,57 @@ Print Assumptions R17_10_sum_range_refuted.
 Example T17_example :
   simplify true [OCmp 0 BGt 1 false; OCmp 0 BGe 1 false; OVar 0; OCmp 0 BLt 5 false]
   = RValues [OCmp 0 BGt 1 false; OVar 0; OCmp 0 BLt 5 false].
+Proof. vm_compute. reflexivity. Qed.
+
+(* T17.7 simplify_constrained_range (after the repair commit): for every list of range arguments
+   (int literals or arbitrary expressions, whose run-time values rho is quantified over), every
+   positive literal step, every list of filters of any length in any order (comparisons with any
+   int constant on either side, opaque conditions interpreted by any sigma), the comprehension over
+   the new range arguments with the redundant filters replaced by True enumerates EXACTLY the same
+   list of elements in the same order. *)
+Theorem T17_7_fold_sound :
+  forall rho sigma args cs args' red,
+    fold_range args cs = VFold args' red ->
+    length red = length cs /\
+    comp_sem rho sigma args' (mask_true red cs) = comp_sem rho sigma args cs.
+Proof. exact fold_sound. Qed.
+Print Assumptions T17_7_fold_sound.
+
+(* T17.7b the empty verdict (comprehension replaced by one over ()) is right. *)
+Theorem T17_7b_fold_empty_sound :
+  forall rho sigma args cs, fold_range args cs = VEmpty -> comp_sem rho sigma args cs = [].
+Proof. exact fold_empty_sound. Qed.
+Print Assumptions T17_7b_fold_empty_sound.
+
+(* T17.7c non-literal bounds are never overwritten or dropped and the rule only fires for a positive
+   literal step. *)
+Theorem T17_7c_fold_args_shape :
+  forall args cs args' red,
+    fold_range args cs = VFold args' red ->
+    exists a0 a1 st s e,
+      normalise args = Some (a0, a1, AInt st) /\ 0 < st /\
+      args' = out_args a0 a1 s e st /\
+      (lit a0 = None -> s = None) /\ (lit a1 = None -> e = None).
+Proof. exact fold_args_shape. Qed.
+Print Assumptions T17_7c_fold_args_shape.
+
+(* R17.8 the pre-repair clauses (old_fold_range) are refuted: x <= stop, misaligned start for
+   step > 1, dropped step, overwritten unknown bound, dead negative-step guard (fixed: F17-4..7). *)
+Theorem R17_8_old_fold_refuted :
+  old_wrong [AInt 0; AInt 5] [RCmp RLe 5 false] /\
+  old_wrong [AInt 0; AInt 10; AInt 2] [RCmp RGt 2 false] /\
+  old_wrong [AInt 0; AInt 10; AInt 2] [RCmp RLt 5 false] /\
+  old_wrong [AInt 0; ASym 0] [RCmp RLt 5 false] /\
+  old_wrong [AInt 10; AInt 0; AInt (-1)] [RCmp RGt 2 false].
+Proof. exact old_fold_refuted. Qed.
+Print Assumptions R17_8_old_fold_refuted.
+
+(* non-vacuity: symbolic stop, step 3, opaque + unrecognised filters, two folded filters *)
+Example T17_7_example :
+  fold_range [AInt (-1); ASym 0; AInt 3]
+             [ROther 0; RCmp RGt 2 false; RCmp RLe 6 true; RCmp RLt 9 false; RCmp RNe 5 false]
+  = VFold [AInt 8; ASym 0; AInt 3] [false; true; true; false; false].
+Proof. vm_compute. reflexivity. Qed.
+Example T17_7b_example :
+  fold_range [AInt (-1); AInt 89] [ROther 0; ROther 1; RCmp REq 89 false] = VEmpty.
 Proof. vm_compute. reflexivity. Qed.
